@@ -78,6 +78,7 @@ func c03Pool() []poolDef {
 		lit("if"), lit("in"), lit("int"), lit("i"), lit("iffy"), lit("+"), lit("++"), lit("+="), lit("="), lit("=="), lit("a"), lit("ab"), lit("abc"), lit("b"),
 		lit(`a\"b`), lit(`\\`), lit(`\"\"`), lit(`x\\\\y`), lit(`\a`), lit(`\"`), lit("0"), lit("00"), lit("/*"), lit("//"), lit("{{"), lit("while"),
 		stok("KW_IF", "if"), stok("KW_WHILE", "while"), stok("OP", "+"),
+		tok("TEXT", `[^\x01-\x1F\x7F]+`), tok("DEL", `\x7F`), tok("NOHI", `[^\x40-\x7F]`), tok("EDGE", `[\x7E-\x80]+`), tok("NOT_E", `[^e\x00E9]`),
 		tok("ID", `[a-z]+`), tok("IDENT", `[a-z][a-z0-9_]*`), tok("ID2", `[a-z][a-z]*`), tok("WORD", `[a-zA-Z]+`), tok("UPPER", `[A-Z]+`),
 		tok("NUM", `[0-9]+`), tok("NUM2", `[0-9][0-9]*`), tok("FLOAT", `[0-9]+\.[0-9]+`), tok("HEX", `0x[0-9a-f]+`), tok("ZERO", `0+`),
 		tok("AS", `a+`), tok("AS2", `aa*`), tok("AB", `ab*`), tok("AC", `ac*`), tok("ABS", `(a|b)*abb`), tok("AOPT", `ab?c?`),
@@ -501,6 +502,30 @@ func runC03(c *ctx) {
 			c03Check(c, fmt.Sprintf("long%d", i), set, false)
 		}
 		n++
+	}
+	// many definitions at once (more than 64: whatever is indexed by definition must cope)
+	{
+		words := []string{}
+		for a := 'a'; a <= 'z' && len(words) < 90; a++ {
+			for _, suf := range []string{"x", "yy", "zq", "k1"} {
+				words = append(words, string(a)+suf)
+			}
+		}
+		for i, nLits := range []int{10, 63, 64, 65, 70, 90} {
+			var set []poolDef
+			for _, w := range words[:nLits] {
+				set = append(set, poolDef{Name: w, Value: w})
+			}
+			base := append(append([]poolDef{}, set...), poolDef{Name: "ID", Value: `[a-z][a-z0-9]*`, IsRegex: true}, poolDef{Name: "NUM", Value: `[0-9]+`, IsRegex: true})
+			withConflict := append(append([]poolDef{}, base...), poolDef{Name: "INT", Value: `\d+`, IsRegex: true})
+			withShadowed := append(append([]poolDef{}, base...), poolDef{Name: "KW", Value: words[nLits-1] + "|" + words[0], IsRegex: true})
+			for j, s2 := range [][]poolDef{base, withConflict, withShadowed} {
+				if c.mineIdx(n) {
+					c03Check(c, fmt.Sprintf("many%d.%d", i, j), s2, false)
+				}
+				n++
+			}
+		}
 	}
 	// seeded triples and larger
 	r := c.rng("sets")
